@@ -517,6 +517,62 @@ def explore_mtime(ctx, rng, stats, violations, disagreements):
                 break
         if violations:
             break
+    # paths at which NOTHING can be stored (a component longer than the file system allows, a loop of symbolic links): nothing is
+    # stored there, so get_modified_time is None - for every bundled store, the helper and an optional PathSource
+    from uberjob.stores import get_modified_time as helper_mtime
+    if not violations:
+        with sc.scratch_dir("c12") as d:
+            loop_a, loop_b = os.path.join(d, "loop_a"), os.path.join(d, "loop_b")
+            os.symlink(loop_b, loop_a)
+            os.symlink(loop_a, loop_b)
+            for label, p in (("a component of 300 characters", os.path.join(d, "n" * 300, "value")), ("a file name of 300 characters", os.path.join(d, "v" * 300)),
+                             ("a loop of symbolic links", os.path.join(loop_a, "value")), ("a symbolic link to itself", loop_a)):
+                for use_pathlib in (False, True):
+                    q = pathlib.Path(p) if use_pathlib else p
+                    probes = [(n, sc.make_store(n, q).get_modified_time) for n in ("BinaryFileStore", "TextFileStore", "JsonFileStore", "PickleFileStore", "TouchFileStore")]
+                    probes += [("get_modified_time", lambda q=q: helper_mtime(q)), ("PathSource(required=False)", PathSource(q, required=False).get_modified_time)]
+                    for name, fn in probes:
+                        try:
+                            got = fn()
+                        except Exception as e:      # noqa: BLE001
+                            got = e
+                        stats["impossible_paths"] = stats.get("impossible_paths", 0) + 1
+                        if got is not None:
+                            violations.append({"property": "C12", "what": f"{name} on a path where nothing can be stored ({label}, {'pathlib' if use_pathlib else 'str'}): "
+                                               f"get_modified_time gave {got!r} instead of None", "witness_case": {"kind": "unusual-mtime"}})
+                            break
+                    if violations:
+                        break
+                if violations:
+                    break
+    # a path spelled with `..` behind a symbolic link to a directory denotes what the operating system resolves it to: the store
+    # writes, reads and dates THAT file (what `open(path)` sees)
+    if not violations:
+        for cls_name, value in (("BinaryFileStore", b"x"), ("TextFileStore", "x"), ("JsonFileStore", [1]), ("PickleFileStore", 1)):
+            for use_pathlib in (False, True):
+                with sc.scratch_dir("c12") as d:
+                    os.makedirs(os.path.join(d, "real", "sub"))
+                    os.symlink(os.path.join(d, "real", "sub"), os.path.join(d, "link"))
+                    p = os.path.join(d, "link", "..", "out")              # = d/real/out, NOT d/out
+                    st = sc.make_store(cls_name, pathlib.Path(p) if use_pathlib else p)
+                    what = None
+                    try:
+                        st.write(value)
+                        if not os.path.exists(os.path.join(d, "real", "out")) or os.path.exists(os.path.join(d, "out")):
+                            what = f"the value was written to {sorted(os.listdir(d))} / real: {sorted(os.listdir(os.path.join(d, 'real')))}, the path denotes real/out"
+                        elif st.get_modified_time() is None or helper_mtime(p) is None:
+                            what = "get_modified_time is None after a completed write"
+                        elif not strict_eq(st.read(), value):
+                            what = "read after write returned another value"
+                    except Exception as e:      # noqa: BLE001
+                        what = f"raised {type(e).__name__}: {str(e)[:80]}"
+                    stats["dotdot_behind_symlink"] = stats.get("dotdot_behind_symlink", 0) + 1
+                    if what:
+                        violations.append({"property": "C12", "what": f"{cls_name} at <dir>/link/../out with link -> real/sub ({'pathlib' if use_pathlib else 'str'}): {what}",
+                                           "witness_case": {"kind": "unusual-mtime"}})
+                        break
+            if violations:
+                break
     if ctx.driver is not None:
         for (w, obs), reply in zip(pend, ctx.driver.batch(lines)):
             model = []
